@@ -481,7 +481,14 @@ def run(ctx, only_cases=None):
     conc = [c for c in cases if c["mode"] == "conc"]
     env = {"VERIF_C13_PAR": "64" if thorough else "40"}
     outs = vlib.run_harness(binary, timed, timeout=1500, env=env) if timed else []
-    couts = vlib.run_harness(binary, conc, timeout=900) if conc else []
+    try:
+        couts = vlib.run_harness(binary, conc, timeout=900) if conc else []
+    except vlib.Broken as b:
+        # a Go runtime "fatal error: concurrent map ..." cannot be recovered: the whole stream is the failing input
+        head = [l for l in (b.detail or "").splitlines() if l.startswith(("fatal error", "panic"))][:1]
+        ctx.violation("mem:concurrent-callers-crash", "concurrent callers of one memory.Storage killed the process: %s (%s)"
+                      % (head[0] if head else b.what, b.what), {"cases": conc[:50], "stderr_tail": (b.detail or "")[-1500:]})
+        conc, couts = [], []
 
     # ---- model runs: real == MemImpl(probed) [mode 0], reference == Spec [mode 1] ----
     ambiguous = 0
